@@ -43,6 +43,10 @@ def run(ck):
     # only the parser knows whether a newline is a terminator or payload (rule C11-R)
     import c11
     c11.rule_R(ck, lib, "C08-RAW")
+    # a unit is `terminated` exactly when its last consumer took a newline byte as terminator - never because the input
+    # happens to end behind a payload that ends in 0x0A (rule C02-F)
+    import parsefields
+    parsefields.check(ck, lib, sk, "C08-F", ("terminated",))
 
 
 def value_ctor(sk, x):
@@ -148,7 +152,17 @@ def rule_I(ck, lib, sk, rid):
             continue
         a = sk.attr(pid)
         if not a.get("nt"):
-            continue
+            # a recogniser that cannot itself run across a newline, applied directly behind one that can and did (the closing
+            # quote behind the text of a string): its Incomplete says the input ended inside that payload
+            behind_nt = False
+            f_ = sk.fns.get(d["fn"])
+            if f_ is not None and d.get("inp") is not None and "incomplete" in d["lost"]:
+                want = pathsum.strip_sites(d["inp"])
+                for (pid2, inp2, t2, oc2) in sk.apps_on_path(d["exit"], f_["ps"]):
+                    if oc2 is True and pid2[0] != "param" and sk.attr(pid2).get("nt") and pathsum.strip_sites(("tproj", ("payload", t2, OK, 0), 0)) == want:
+                        behind_nt = True
+            if not behind_nt:
+                continue
         key = "%s:%s" % (d["fn"].split("::")[-1], pid_name(pid))
         bad = "incomplete" in d["lost"]
         prev = seen.get(key)
